@@ -2,10 +2,12 @@
 import hashlib, json, os, re, sys
 import verif as V
 import jqdefs
+import c01
 
 PROP = "C13"
 PROPS = "props/C13.v"
 PROPS_B = "props/C13b.v"   # integration with C12: tojson|fromjson, tostring|tonumber (coq/integ/TojsonFromjson.v)
+PROPS_C = "props/C13c.v"   # the jq-defined pairs over the reference semantics coq/sem applied to builtin.jq of the current tree
 DEPS = ["c13/Utf8.v", "c13/Codec.v", "c13/Jv.v", "c13/Time.v", "c13/Run.v"]
 
 
@@ -85,10 +87,22 @@ def run(tier, seed, only_cands=None):
         "under the hypotheses fmt_shape and fmt_round (digits parse back to the float), checked on sampled floats by C12",
         "todate|fromdate and [paths]==[path(..)][1:] have no theorem; they are evaluated on the implementation only "
         "(laws stream), as are tojson|fromjson and tostring|tonumber on the real encoding/json and strconv",
+        "props/C13c.v: to_entries/from_entries/with_entries(.)/map and the call laws are theorems about coq/sem's evaluator "
+        "(tied to gojq by the C01 check) on the definitions of builtin.jq of the current tree (pins closed by computation on "
+        "the regenerated coq/gen/GenBuiltins.v); objects of the model are sorted association lists",
         "returned-its-input is decided exactly on the Go side (integer inputs by exact value, double inputs as that double), never through gojq.Compare or ==",
     ]
     proved = c.prove(PROPS)
     proved = c.prove(PROPS_B) and proved
+    # C13c: theorems about Sem.eval_q on the definitions of builtin.jq (coq/sem/BuiltinLaws*.v); the table
+    # coq/gen/GenBuiltins.v is regenerated here from the current builtin.jq through gojq.Parse, so an edit of a
+    # pinned definition (map, to_entries, from_entries, with_entries, ...) breaks the pin obligation of props/C13c.v
+    exe_sem, slog = V.build_harness("sem")
+    if exe_sem is None:
+        c.broken_correspondence("harness-build:sem", None, V.tail(slog, 40))
+    else:
+        c01.regen_builtins(c, exe_sem)
+    proved = c.prove(PROPS_C) and proved
     jqdefs.check(c, V.REPO, JQ_TEXT)
     exe_h, hlog = V.build_harness("c13")
     mism, st, lst = [], {}, {}
